@@ -398,6 +398,30 @@ fn handle(sh: &Arc<Shared>, mut rq: Request, c: usize, m: usize) {
                 let r = rq.as_reader().read_to_string(&mut text).map(|_| ());
                 got = text.into_bytes();
                 r
+            } else if kind == "read_to_end_sized" {
+                // a buffer sized by the declared length: no read is ever larger than what is left of the body
+                got = Vec::with_capacity(rq.body_length().unwrap_or(0));
+                rq.as_reader().read_to_end(&mut got).map(|_| ())
+            } else if kind == "read_exact" {
+                // exactly the declared length, then one more read to see the end of the body
+                got = vec![0u8; rq.body_length().unwrap_or(0)];
+                let r = rq.as_reader().read_exact(&mut got);
+                match r {
+                    Ok(()) => {
+                        let mut one = [0u8; 1];
+                        loop {
+                            match rq.as_reader().read(&mut one) {
+                                Ok(0) => break Ok(()),
+                                Ok(_) => got.push(one[0]),
+                                Err(e) => break Err(e),
+                            }
+                        }
+                    }
+                    Err(e) => {
+                        got.clear();
+                        Err(e)
+                    }
+                }
             } else {
                 rq.as_reader().read_to_end(&mut got).map(|_| ())
             }
@@ -542,6 +566,9 @@ fn handle(sh: &Arc<Shared>, mut rq: Request, c: usize, m: usize) {
             let mut w = lib(|| rq.into_writer());
             if a.flush_first {
                 let _ = lib(|| w.flush());
+            }
+            if a.empty_first {
+                let _ = lib(|| w.write(&[]));
             }
             let body = resp_body(c, m, total);
             let mut ok = true;
